@@ -269,6 +269,8 @@ def spec_ok(impl, spec):
     the line); anything else is the exact expected result."""
     if spec.startswith("~"):
         return impl.endswith(spec[1:])
+    if spec.startswith("?"):
+        return impl in spec[1:].split("||")
     return impl == spec
 
 
@@ -423,9 +425,21 @@ def main(argv):
     result = None
     err = None
     have_driver = os.path.exists(os.path.join(LEAN, ".lake", "build", "bin", "mktsdrv"))
+    driver_bin = os.path.join(LEAN, ".lake", "build", "bin", "mktsdrv")
+    harness_bin = os.path.join(BUILD, "harness")
+
+    def do_cases(sd, tr, wd):
+        if cfg.get("kind") == "wal":
+            import walcheck
+            os.makedirs(wd, exist_ok=True)
+            rl = None
+            if replay:
+                rl = [l for l in open(corpus_files[0]).read().split("\n") if l.strip()]
+            return walcheck.run(pid, cfg, sd, tr, wd, log, harness_bin, driver_bin, replay_lines=rl)
+        return run_cases(pid, gen, sd, tr, corpus_files, wd, log, cfg.get("timeout_s", {}).get(tr, 1500))
+
     if rc_h == 0 and have_driver:
-        result, err = run_cases(pid, gen, seed, tier, corpus_files, workdir, log,
-                                cfg.get("timeout_s", {}).get(tier, 1500))
+        result, err = do_cases(seed, tier, workdir)
         if err:
             broken.append({"what": "correspondence run", "detail": err})
     cls = classify(result["cases"], findings) if result else None
@@ -434,8 +448,7 @@ def main(argv):
     searched = 0
     if result and (broken or cls["disagree"]) and not cls["violations"] and not replay:
         for k in range(1, 4):
-            r2, e2 = run_cases(pid, gen, seed + 1000 * k, "thorough", corpus_files, workdir + "-s%d" % k, log,
-                               cfg.get("timeout_s", {}).get("thorough", 3000))
+            r2, e2 = do_cases(seed + 1000 * k, "thorough", workdir + "-s%d" % k)
             shutil.rmtree(workdir + "-s%d" % k, ignore_errors=True)
             if not r2:
                 break
